@@ -268,15 +268,20 @@ decreasing_by omega
 
 /-- `uriCompose(scheme, NULL, NULL, host, port, path, query, fragment, buf, 0xffff)`: a chain of
 `snprintf`s into a 65535-byte buffer, i.e. the first 65534 bytes of the concatenation -/
+def hostText (host : Option Bytes) : Bytes :=
+  match host with | some h => if h.contains 58 then [91] ++ h ++ [93] else h | none => []
+def portText (port : Nat) : Bytes := if port ≠ 0 then [58] ++ decimal port else []
+def pathText (path : Option Bytes) : Bytes :=
+  match path with | some p => (if p.head? = some 47 then [] else [47]) ++ p | none => []
+def optText (d : UInt8) (q : Option Bytes) : Bytes := match q with | some q => [d] ++ q | none => []
+
+/-- the concatenation the `snprintf` chain of `uriCompose` aims at -/
+def uriComposeFull (scheme host : Option Bytes) (port : Nat) (path query fragment : Option Bytes) : Bytes :=
+  (match scheme with | some s => s ++ [58, 47, 47] | none => []) ++ hostText host ++ portText port ++ pathText path ++
+    optText 63 query ++ optText 35 fragment
+
 def uriCompose (scheme host : Option Bytes) (port : Nat) (path query fragment : Option Bytes) : Bytes :=
-  let full :=
-    (match scheme with | some s => s ++ [58, 47, 47] | none => []) ++
-    (match host with | some h => if h.contains 58 then [91] ++ h ++ [93] else h | none => []) ++
-    (if port ≠ 0 then [58] ++ decimal port else []) ++
-    (match path with | some p => (if p.head? = some 47 then [] else [47]) ++ p | none => []) ++
-    (match query with | some q => [63] ++ q | none => []) ++
-    (match fragment with | some f => [35] ++ f | none => [])
-  full.take 0xfffe
+  (uriComposeFull scheme host port path query fragment).take 0xfffe
 
 def toLower (c : UInt8) : UInt8 := if 65 ≤ c.toNat ∧ c.toNat ≤ 90 then UInt8.ofNat (c.toNat + 32) else c
 
